@@ -446,6 +446,13 @@ impl Exec {
             obs = Some("panic".into());
             snap = None;
             self.dead = true;
+            if (op == "add" || op == "upd") && self.pol.is_some() && a.len() >= 2 {
+                // finding D10: the policy adds costs without overflow checks
+                let used = self.pol.as_ref().unwrap().0.snap().used;
+                let cost = a[1].parse::<i64>().unwrap_or(0);
+                let class = if used.checked_add(cost).is_none() { " class=i64-overflow" } else { "" };
+                println!("MONITOR property=C01 case=0 msg=policy_operation_panicked:_{}_with_used={}{}", line.replace(' ', "_"), used, class);
+            }
         }
         t.step(&out_line);
         if let Some(o) = &obs {
